@@ -153,6 +153,12 @@ fn run_unit(eng: &dyn Engine, unit: &UnitSpec, progress: Option<&File>, skip: &[
             }
         }
         fp = rng::mix(&[fp, sub as u64, out.fingerprint]);
+        if let Ok(path) = std::env::var("VERIF_DUMP_FP") {
+            // debugging aid for determinism triage: one line per case
+            if let Ok(mut f) = OpenOptions::new().create(true).append(true).open(path) {
+                let _ = writeln!(f, "{} {} {:016x} {}", unit.id, sub, out.fingerprint, case.scenario);
+            }
+        }
         if let Some(v) = out.violation {
             res.violations_total += 1;
             // keep the first few per signature
